@@ -83,10 +83,10 @@ func (b *ByteBuffer) Commit(n int) {
 		return
 	}
 
-	b.ri += n
-	if b.ri > b.wi {
-		b.ri = b.wi
+	if n > b.wi-b.ri {
+		n = b.wi - b.ri
 	}
+	b.ri += n
 }
 
 // Prefault the buffer, forcing physical memory allocation.
